@@ -92,6 +92,23 @@ theorem C11_one_owner_tcp (c : NetCfg) (hc : c.WF) (ls : List NLbl) (a b : Strin
   rw [← he] at h2
   exact keys_unique _ (C11_exclusive c hc ls).2 _ _ _ h1 h2
 
+/-- **The guard of `unbind_udp_socket` never fails.** Whatever entry exists for the endpoint a
+    UDP socket believes it is bound to belongs to that very socket (UDP has no accepted
+    sockets sharing an endpoint) — which is why making that erase unconditional cannot be
+    observed, while the TCP twin can (`C11_accepted_close_keeps_acceptor`). -/
+theorem C11_udp_entry_is_own (c : NetCfg) (hc : c.WF) (ls : List NLbl) (name x : String) (u : UdpSock)
+    (hu : ((NS.init c).run ls).n.udp? name = some u) (hd : u.bound.isDefault = false)
+    (hx : (u.bound, x) ∈ ((NS.init c).run ls).n.reg.udp) : x = name := by
+  have h := RegInv.run c hc ls
+  have ho : u.isOpen = true := by
+    cases ho : u.isOpen with
+    | true => rfl
+    | false =>
+      have := h.udp.closed name u.bound (by simp [NetSt.ub, hu, ho])
+      rw [this] at hd; simp [Ep.default_isDefault] at hd
+  have hm := h.udp.complete name u.bound (by simp [NetSt.ub, hu, ho]) hd (by simp)
+  exact keys_unique _ h.udp.nodup _ _ _ hx hm
+
 /-- A closed object is unbound; a bound one never carries the wildcard address. -/
 theorem C11_closed_unbound (c : NetCfg) (hc : c.WF) (ls : List NLbl) (name : String) :
     (∀ u, ((NS.init c).run ls).n.udp? name = some u → u.isOpen = false → u.bound = {})
